@@ -598,7 +598,10 @@ package fsm
 //@   ensures[stake] result == nil ==> stakeOf() == old(store(stakeOf(), bytes(validator.Address), validator.StakedAmount)) && stakeSum(s) == old(stakeSum(s)) - old(stakeOf(bytes(validator.Address))) + old(validator.StakedAmount)
 // a status change re-writes the record: the abstract stake of that validator becomes the record's StakedAmount
 // (unchanged when the record was loaded from state and not altered)
+// (a paused marker refers to a validator in exactly that status: a validator that is unstaking is never paused -
+// checked at every call site in the repository)
 //@ func (*StateMachine).SetValidatorPaused
+//@   requires[notunstaking] validator.UnstakingHeight == 0
 //@   ensures[failsafe] result != nil ==> stakeOf() == old(stakeOf()) && stakeSum(s) == old(stakeSum(s))
 //@   ensures[marker] result == nil ==> kvHas(pausedKey(maxPausedHeight, addrOf(address))) && validator.MaxPausedHeight == maxPausedHeight
 //@   ensures[stake] result == nil ==> stakeOf() == old(store(stakeOf(), bytes(validator.Address), validator.StakedAmount)) && stakeSum(s) == old(stakeSum(s)) - old(stakeOf(bytes(validator.Address))) + old(validator.StakedAmount)
@@ -907,3 +910,10 @@ package fsm
 //@   loop 1 invariant[conserve] drift(s) == old(drift(s)) && supTotal(s) == old(supTotal(s))
 //@   loop 2 invariant[conserve] drift(s) == old(drift(s)) && supTotal(s) == old(supTotal(s))
 //@   ensures[conserve] isnil(err) ==> drift(s) == old(drift(s)) && supTotal(s) == old(supTotal(s))
+
+// ---- C20: a liquidity provider turned away at the provider cap gets ALL of its escrow back ---------------------------
+// Split deposits of one address are ranked as one candidate (`amount` = their sum). When the candidate loses against the
+// lowest existing provider, a locally escrowed candidate is refunded: the holding pool gives up exactly the candidate's
+// total - not just its first deposit - so nothing stays behind without a pending deposit.
+//@ func (*StateMachine).handleCappedBatchDeposit
+//@   loop 3 iterensures[fullrefund] local && athead(len(p.Points)) >= lib.MaxLiquidityProviders && athead(lowest) != nil && lowest == athead(lowest) && share <= athead(lowest.Points) ==> poolBal(wrap64(chainId + HoldingPoolAddend)) == athead(poolBal(wrap64(chainId + HoldingPoolAddend))) - newcomer.amount
